@@ -58,6 +58,10 @@ def mutants(prog):
         ("wlcc wrapper mask wiring", "deepali.losses.image", "WLCC.forward", "target_mask=target_mask", "target_mask=source_mask", "T16.module-functional"),
         ("nmi wrapper not normalized", "deepali.losses.image", "NMI.__init__", "normalized=True", "normalized=False", "T16.module-functional"),
         ("tversky loss not one minus", L, "tversky_loss", "loss = one.sub(ti)", "loss = ti", "T16."),
+        ("tversky: background channel", L, "tversky_index", "y_pred = y_pred.narrow(1, 1, 1)", "y_pred = y_pred.narrow(1, 0, 1)", "T16.target-forms"),
+        ("tversky: label map without channel axis", L, "tversky_index", "as_one_hot_tensor(target.unsqueeze(1), num_classes, dtype=y_pred.dtype)", "as_one_hot_tensor(target, num_classes, dtype=y_pred.dtype)", "T16.target-forms"),
+        ("norm: membership test matches 1", "deepali.losses.base", "NormalizedPairwiseImageLoss.__init__", "if norm is True:\n        norm = None\n    if norm is None:", "if norm in (None, True):", "T16.module-norm"),
+        ("norm: True and False exchanged", "deepali.losses.base", "NormalizedPairwiseImageLoss.__init__", "if norm is True:", "if norm is False:", "T16.module-norm"),
     ]
     for name, mod, fn, old, new, expect in specs:
         ov = source_sub(prog, mod, fn, old, new)
